@@ -270,6 +270,11 @@ def run(chk, prog):
         kk = j[2][2] if len(j[2]) == 3 else None
         der = show(j)[:200]
         okk = is_t(kk, "tuple") and len(kk[1]) == 2 and evd.closure_of(kk[1][0]) is not None and evd.closure_of(kk[1][0]).node is pkont and evd.closure_of(kk[1][1]).node is dkont and j[2][0] == P("key")
+    if jve:
+        dtree = jve[0][2][1]
+        okd_ = is_call(dtree, "dual_tree") and len(dtree[2]) == 2 and mentions_any(dtree[2][0], lambda x: is_t(x, "proj") and x[2] == 0 and is_call(x[1], "flat_unzip")) and not mentions_any(dtree[2][0], lambda x: is_t(x, "proj") and x[2] == 1 and is_call(x[1], "flat_unzip")) \
+            and mentions_any(dtree[2][1], lambda x: is_t(x, "proj") and x[2] == 1 and is_call(x[1], "flat_unzip")) and not mentions_any(dtree[2][1], lambda x: is_t(x, "proj") and x[2] == 0 and is_call(x[1], "flat_unzip"))
+        chk.require(okd_, "ROLE-TANGENT", "eval_jaxpr_iterate_dual/dual_tree", "the primitive's arguments paired (primals, tangents) in that order", derived=show(dtree)[:240], expected="Dual.dual_tree(<from flat primals>, <from flat tangents>)", where=whereI)
     chk.require(bool(okk), "KONT-ARITY", "eval_jaxpr_iterate_dual/konts", "continuations passed as (pure, dual), as the primitives unpack them", derived=der, expected="adev_prim.jvp_estimate(key, dual_tree, (_sample_pure_kont, _sample_dual_kont))", where=whereI)
     for kn, node_ in (("dual", dkont), ("pure", pkont)):
         clo = [x for x in subterms(rd.ret) if evd.closure_of(x) is not None and evd.closure_of(x).node is node_]
